@@ -44,8 +44,9 @@ KEYS = {
     "g.l": ("list_int", []),
     "ll": ("list_list_int", [[0]]),
     "d": ("dict_str_int", {"z": 0}),
+    "g.d": ("dict_str_int", {}),
 }
-METHODS = ["parse_args", "parse_args", "parse_args_envT", "parse_args_envF", "parse_env", "parse_env_os", "parse_string", "parse_string_envT", "parse_object", "parse_object_envT", "parse_args_nodef", "parse_args_nodef_envT", "parse_object_nodef"]
+METHODS = ["parse_args", "parse_args", "parse_args_envT", "parse_args_envF", "parse_env", "parse_env_os", "parse_string", "parse_string_envT", "parse_object", "parse_object_envT", "parse_args_nodef", "parse_args_nodef_envT", "parse_object_nodef", "parse_path", "parse_path_envT"]
 
 
 def rnd_val(r, t):
@@ -164,7 +165,7 @@ def generate(rng, tier):
             v = r.randint(1, 9) if r.random() < 0.6 else [r.randint(1, 9) for _ in range(r.randint(0, 2))]
             argv.append("--%s+=%s" % (k, text(v)))
         elif c < 0.72:
-            argv.append("--d.%s=%d" % (r.choice("pqr"), r.randint(1, 9)))
+            argv.append("--%s.%s=%d" % (r.choice(["d", "d", "g.d"]), r.choice("pqr"), r.randint(1, 9)))
         else:
             st = rnd_settings(r, hot)
             if r.random() < 0.5:
@@ -299,6 +300,8 @@ def argv_sources(sc, cwd):
             out.append(("app", k[:-1], val if isinstance(val, list) else [val]))
         elif k.startswith("d."):
             out.append(("item", "d", k[2:], json.loads(v)))
+        elif k.startswith("g.d."):
+            out.append(("item", "g.d", k[4:], json.loads(v)))
         else:
             t = KEYS[k][0]
             out.append(("set", k, v if t == "str" else json.loads(v)))
@@ -320,6 +323,8 @@ def env_on(sc):
         "parse_args_nodef": de,
         "parse_args_nodef_envT": True,
         "parse_object_nodef": de,
+        "parse_path": de,
+        "parse_path_envT": True,
     }[sc["method"]]
 
 
@@ -371,7 +376,7 @@ def fold(sc, root, cwd, variant=None, listing=None):
     envd = sc["env"]
     cfgsrc, varsrc = env_sources(sc, envd, cwd)
     asrc = argv_sources(sc, cwd) if m.startswith("parse_args") else []
-    dsrc2 = [("cfg", sc["direct"])] if m.startswith(("parse_string", "parse_object")) else []
+    dsrc2 = [("cfg", sc["direct"])] if m.startswith(("parse_string", "parse_object", "parse_path")) else []
     on = env_on(sc)
     if variant == "env-ignored":
         on = False
@@ -421,6 +426,10 @@ def run_method(p, sc):
         return p.parse_object(copy.deepcopy(sc["direct"]))
     if m == "parse_object_envT":
         return p.parse_object(copy.deepcopy(sc["direct"]), env=True)
+    if m in ("parse_path", "parse_path_envT"):
+        with open("direct_doc.yaml", "w") as fh:
+            fh.write(json.dumps(sc["direct"]))
+        return p.parse_path("direct_doc.yaml", **({"env": True} if m.endswith("envT") else {}))
     if m == "parse_object_nodef":
         return p.parse_object(copy.deepcopy(sc["direct"]), defaults=False)
     kw = {"parse_args": {}, "parse_args_envT": {"env": True}, "parse_args_envF": {"env": False}, "parse_args_nodef": {"defaults": False}, "parse_args_nodef_envT": {"defaults": False, "env": True}}[m]
@@ -472,7 +481,7 @@ def execute(sc, ctx):
             sim.probe("same-key-3-sources")
         if any(t.startswith("--") and "+=" in t for t in sc["argv"]) and sc["method"].startswith("parse_args"):
             sim.probe("append")
-        if any(t.startswith("--d.") for t in sc["argv"]) and sc["method"].startswith("parse_args"):
+        if any(t.startswith(("--d.", "--g.d.")) for t in sc["argv"]) and sc["method"].startswith("parse_args"):
             sim.probe("dict-item")
         if "--cfg" in sc["argv"] and sc["method"].startswith("parse_args"):
             sim.probe("cfg-on-argv")
